@@ -15,6 +15,7 @@ package vrt
 
 import (
 	"fmt"
+	"os"
 	"runtime"
 	"runtime/debug"
 	"strings"
@@ -61,6 +62,9 @@ type Thread struct {
 	started bool
 	enabled func() bool // nil = enabled
 	label   string
+	// unwinding after an abort
+	exited    bool
+	unwinding bool
 }
 
 func (t *Thread) ID() int { return t.id }
@@ -130,11 +134,29 @@ func Run(prefix []int, opt Options, body func()) *Execution {
 	} else {
 		<-s.finished
 	}
-	if !s.aborted {
-		s.wg.Wait()
-	}
+	s.join()
 	active = nil
 	return &Execution{Points: s.points, Failure: s.failure, FailKind: s.failKind, Steps: s.steps, Threads: len(s.threads), Trace: s.trace}
+}
+
+// join waits for every thread's goroutine: all of them after a complete
+// execution; after an abort, for the unwinding to finish (bounded: a thread
+// stuck outside the scheduler cannot be unwound and is abandoned).
+func (s *Sched) join() {
+	if !s.aborted {
+		s.wg.Wait()
+		return
+	}
+	if s.failKind == "stuck" {
+		return
+	}
+	done := make(chan struct{})
+	go func() { s.wg.Wait(); close(done) }()
+	select {
+	case <-done:
+	case <-time.After(5 * time.Second):
+		fmt.Fprintln(os.Stderr, "vrt: unwinding after an abort did not finish within 5 s; goroutines abandoned")
+	}
 }
 
 func (s *Sched) newThread(name string, f func()) *Thread {
@@ -144,18 +166,29 @@ func (s *Sched) newThread(name string, f func()) *Thread {
 	go func() {
 		defer s.wg.Done()
 		<-t.wake
+		if s.aborted {
+			// never ran: woken only to be unwound
+			t.exited = true
+			s.unwindNext()
+			return
+		}
 		defer func() {
-			if r := recover(); r != nil {
+			r := recover()
+			t.exited = true
+			if r != nil && !s.aborted {
 				s.fail("panic", fmt.Sprintf("panic in thread %d (%s): %v\n%s", t.id, t.name, r, trimStack(debug.Stack())))
-				return
 			}
-			// normal return or runtime.Goexit
+			// normal return, runtime.Goexit, or a panic
 			if s.aborted {
+				s.unwindNext()
 				return
 			}
 			t.done = true
 			s.logf("T%d exit", t.id)
 			s.scheduleFromExit(t)
+			if s.aborted {
+				s.unwindNext()
+			}
 		}()
 		f()
 	}()
@@ -185,10 +218,25 @@ func (s *Sched) fail(kind, msg string) {
 	s.aborted = true
 	s.failure = msg
 	s.failKind = kind
-	// Parked threads stay parked (their goroutines are abandoned): unwinding
-	// them concurrently would run deferred user code in parallel. Aborted
-	// executions are rare and end the exploration after a few of them.
+	// The calling thread exits next (exitCurrent); when its goroutine is gone
+	// the parked threads are unwound one after the other (unwindNext), so
+	// that aborted executions - every sleep-set pruned one is - leave no
+	// goroutines behind.
 	s.endOnce.Do(func() { close(s.finished) })
+}
+
+// unwindNext wakes one thread that is still parked so that it terminates
+// (runtime.Goexit at its scheduling point; its deferred calls run, and every
+// scheduler operation they make exits again). The woken thread's own exit
+// continues the chain: deferred user code never runs in parallel.
+func (s *Sched) unwindNext() {
+	for _, t := range s.threads {
+		if !t.exited && !t.done && !t.unwinding {
+			t.unwinding = true
+			t.wake <- struct{}{}
+			return
+		}
+	}
 }
 
 func (s *Sched) choose(n int, kind byte, preempt bool, label string, enabled []int, thread int) int {
@@ -288,7 +336,11 @@ func (s *Sched) switchTo(from, next *Thread) {
 	s.cur = next
 	next.wake <- struct{}{}
 	<-from.wake
-	// s.cur was set to from by whoever woke us
+	// s.cur was set to from by whoever woke us - or the execution was
+	// aborted meanwhile and this thread is being unwound
+	if s.aborted {
+		s.exitCurrent()
+	}
 }
 
 func (s *Sched) scheduleFromExit(t *Thread) {
